@@ -1,9 +1,9 @@
 """C01 — namespace-scope declarations are extracted faithfully."""
 import canon
-from cxxheaderparser import types as T
 import gen_prog
 import impl
 import pcommon
+from cxxheaderparser import types as T
 from cxxheaderparser.simple import parse_string
 from cxxheaderparser.errors import CxxParseError
 
